@@ -54,7 +54,9 @@ def doLincomb (l : Line) : Option String := do
   let leaf : String :=
     if zero then "zeroguard"
     else match reg with
-      | .small => "direct"
+      | .small =>
+        let t := P.progSmall.trace A a b
+        if t.isEmpty then "noop" else "+".intercalate t
       | _ =>
         let t := P.prog.trace A a b
         let t2 := if t.contains "recurse" then
